@@ -88,6 +88,9 @@ type bitmap []bitmapStrike
 
 func newBitmap(table tables.EBLC, imageTable []byte) (bitmap, error) {
 	out := make(bitmap, len(table.BitmapSizes))
+	// the glyphs of a format 2 index have no entry in the location table:
+	// bound their total number by the size of the data table they share
+	nbGlyphs2 := 0
 	for i, strike := range table.BitmapSizes {
 		subtables := table.IndexSubTables[i]
 		out[i] = bitmapStrike{
@@ -98,6 +101,12 @@ func newBitmap(table tables.EBLC, imageTable []byte) (bitmap, error) {
 			ppemY:     uint16(strike.PpemY),
 		}
 		for j, subtable := range subtables {
+			if _, isFormat2 := subtable.IndexData.(tables.IndexData2); isFormat2 {
+				nbGlyphs2 += int(subtable.LastGlyph) - int(subtable.FirstGlyph) + 1
+				if nbGlyphs2 > len(imageTable) {
+					return nil, fmt.Errorf("invalid bitmap index format 2: %d glyphs for a data table of length %d", nbGlyphs2, len(imageTable))
+				}
+			}
 			var err error
 			out[i].subTables[j], err = newBitmapSubtable(subtable, imageTable)
 			if err != nil {
